@@ -562,7 +562,7 @@ class _Option:
         if self.multiple:
             self._value = []
             for part in value.split(","):
-                if issubclass(self.type, numbers.Integral):
+                if issubclass(self.type, numbers.Integral) and self.type is not bool:
                     # allow ranges of the form X:Y (inclusive at both ends)
                     lo_str, _, hi_str = part.partition(":")
                     lo = _parse(lo_str)
